@@ -414,6 +414,9 @@ type c10Step struct {
 	Op    string   `json:"op"` // rollout-deploy | set | stop | redeploy | restart
 	Pct   int      `json:"pct,omitempty"`
 	Allow []string `json:"allow,omitempty"`
+	// Held (rollout-deploy, set, stop): the service is paused and one request per value is held at the pause gate
+	// while the command runs; resumed afterwards, they go where the split in force at their release sends them
+	Held bool `json:"held,omitempty"`
 }
 
 type c10HistPlan struct {
@@ -436,6 +439,9 @@ func c10HistGen(t *rapid.T) c10HistPlan {
 			if rapid.IntRange(0, 2).Draw(t, "allow?") == 0 {
 				st.Allow = []string{rapid.SampledFrom(p.Values).Draw(t, "allow")}
 			}
+		}
+		if op == "set" || op == "stop" || op == "rollout-deploy" {
+			st.Held = rapid.IntRange(0, 3).Draw(t, "held?") == 0
 		}
 		p.Steps = append(p.Steps, st)
 	}
@@ -479,6 +485,20 @@ func c10HistRun(t *testing.T, p c10HistPlan) (res vfResult) {
 		for i, st := range p.Steps {
 			ctx := fmt.Sprintf("step %d %+v", i, st)
 			var err error
+			var helds []*vfPending
+			if st.Held {
+				w.noteWait(31 * time.Second)
+				if perr := vfPause(e.r, "svc", time.Second, 30*time.Second); perr != nil {
+					res.failf("command-failed", "%s: pause: %v", ctx, perr)
+					return
+				}
+				for _, v := range p.Values {
+					req := vfNewRequest("GET", "h.test", "/", nil, nil)
+					req.Header.Set("Cookie", "kamal-rollout="+v)
+					helds = append(helds, w.goDo(e.r, req))
+				}
+				synctest.Wait()
+			}
 			switch st.Op {
 			case "rollout-deploy":
 				err = vfRolloutDeploy(e.r, "svc", e.roll, 5*time.Second, time.Second)
@@ -536,6 +556,31 @@ func c10HistRun(t *testing.T, p c10HistPlan) (res vfResult) {
 				return
 			}
 			synctest.Wait()
+			if st.Held {
+				if rerr := vfResume(e.r, "svc"); rerr != nil {
+					res.failf("command-failed", "%s: resume: %v", ctx, rerr)
+					return
+				}
+				for k, v := range p.Values {
+					<-helds[k].done
+					rp := helds[k].resp
+					want, got := "active", "other"
+					if hasTargets && hasSplit && (vfContains(allow, v) || table[pct][v]) {
+						want = "rollout"
+					}
+					switch {
+					case rp.Status == 200 && vfContains(e.active, rp.Target):
+						got = "active"
+					case rp.Status == 200 && vfContains(e.roll, rp.Target):
+						got = "rollout"
+					}
+					if got != want {
+						res.failf("held-wrong-side", "%s: a request with cookie %q held by a pause while the command ran and released after it went to %s, want %s (targets=%v split=%v pct=%d allow=%q; %v)", ctx, v, got, want, hasTargets, hasSplit, pct, allow, rp)
+						return
+					}
+				}
+				res.label("held-through-rollout-command")
+			}
 			for _, v := range p.Values {
 				want := "active"
 				if hasTargets && hasSplit && (vfContains(allow, v) || table[pct][v]) {
